@@ -905,7 +905,20 @@ func (P *Prog) checkParsedArithmetic(r *Result, scope map[*ssa.Function]bool, su
 	}
 	r.Extra["parsed_arithmetic_int_ops_scanned"] = scanned
 	r.Extra["parsed_arithmetic_sites"] = parsed
-	if scanned == 0 {
-		r.broken("vacuous: the parsed-arithmetic rule saw no integer operation in the coercers and data providers")
+	// (the expected number of sites is zero; what shows that the rule looked is its scope: the numeric coercers - whose
+	// count has its own floor - and the data providers' Get methods)
+	nGet := 0
+	for fn := range scope {
+		if fn.Parent() == nil && fn.Signature.Recv() != nil && fn.Name() == "Get" && P.isProviderType(fn.Signature.Recv().Type()) {
+			nGet++
+		}
+	}
+	r.Extra["parsed_arithmetic_provider_gets"] = nGet
+	r.Extra["parsed_arithmetic_scope_functions"] = len(scope)
+	if nGet < 3 {
+		r.broken("vacuous: the parsed-arithmetic rule found %d Get methods of data providers (floor 3: map, struct, url/env providers)", nGet)
+	}
+	if parsed == 0 {
+		r.ok("C18/parsed-arithmetic", "module", "-", fmt.Sprintf("no number parsed from input text is multiplied, shifted, added to or subtracted from in the %d functions of the coercers and data providers", len(scope)))
 	}
 }
